@@ -84,7 +84,7 @@ uper_get_nsnnwn(asn_per_data_t *pd) {
 			return -1;
 		if(value == 0)
 			return 0;
-		if(value >= 3)
+		if(value > 3)	/* the writer emits at most 3 octets */
 			return -1;
 		value = per_get_few_bits(pd, 8 * value);
 		return value;
@@ -113,7 +113,8 @@ uper_put_nsnnwn(asn_per_outp_t *po, int n) {
 		bytes = 3;
 	else
 		return -1;	/* This is not a "normally small" value */
-	if(per_put_few_bits(po, bytes, 8))
+	/* #10.6.2: a single-bit 1, then a semi-constrained whole number (#10.7) */
+	if(per_put_few_bits(po, 1, 1) || per_put_few_bits(po, bytes, 8))
 		return -1;
 
 	return per_put_few_bits(po, n, 8 * bytes);
@@ -205,7 +206,9 @@ uper_put_nslength(asn_per_outp_t *po, size_t length) {
         return per_put_few_bits(po, length - 1, 7) ? -1 : 0;
     } else {
         int need_eom = 0;
-        if(uper_put_length(po, length, &need_eom) != (ssize_t)length
+        /* #10.9.3.4: a single-bit 1, then the general length determinant */
+        if(per_put_few_bits(po, 1, 1)
+           || uper_put_length(po, length, &need_eom) != (ssize_t)length
            || need_eom) {
             /* This might happen in case of >16K extensions */
             return -1;
